@@ -330,7 +330,7 @@ func dedupe(in []string) []string {
 
 func c13CID(r *run.Run) {
 	r.Explore(explore.Config{Name: "C13.cid"},
-		"CID-keyed fonts: all FDSelect functions on 5 glyphs -> 3 font dicts (formats 0 vs 3), FD counts {1,2,3,256}, GID->CID maps {identity, gaps, large CIDs}, font matrices, supplements",
+		"CID-keyed fonts: all FDSelect functions on 5 glyphs -> 3 font dicts (formats 0 vs 3), FD counts {1,2,3,256}, GID->CID maps {identity, gaps, large CIDs}, 4 patterns of per-dictionary / top-level font matrices over {identity, 1/1000, skewed}, supplements",
 		func(c *explore.Ctx) {
 			nfd := explore.Pick(c, "font dicts", 3, 1, 2, 256)
 			n := 5
@@ -348,13 +348,30 @@ func c13CID(r *run.Run) {
 			}
 			cidKind := c.Choose(3, "cid map")
 			f := &cff.Font{FontInfo: c13Info(), Outlines: &cff.Outlines{ROS: &cid.SystemInfo{Registry: "Adobe", Ordering: "Japan1", Supplement: int32(c.Choose(2, "supplement") * 6)}}}
+			// font matrices: the per-dictionary matrices and the top-level matrix each from {identity, the
+			// 1/1000 default of simple fonts, a skewed one} (the writer omits default values, and the
+			// defaults of the two levels differ)
+			mp := c.Choose(4, "font matrices")
+			thousandth := matrix.Matrix{0.001, 0, 0, 0.001, 0, 0}
 			for k := 0; k < nfd; k++ {
 				f.Private = append(f.Private, c13Priv(k%50))
 				m := matrix.Identity
-				if k%2 == 1 {
+				switch {
+				case mp == 0 && k%2 == 1:
+					m = matrix.Matrix{0.5, 0, 0.125, 2, 0, 0}
+				case mp == 1:
+					m = thousandth
+				case mp == 2 && k%2 == 0:
+					m = thousandth
+				case mp == 3 && k%3 == 1:
+					m = thousandth
+				case mp == 3 && k%3 == 2:
 					m = matrix.Matrix{0.5, 0, 0.125, 2, 0, 0}
 				}
 				f.FontMatrices = append(f.FontMatrices, m)
+			}
+			if mp == 1 || mp == 3 {
+				f.FontInfo.FontMatrix = matrix.Identity
 			}
 			selCopy := append([]int{}, sel...)
 			f.FDSelect = func(g glyph.ID) int { return selCopy[g] }
